@@ -698,15 +698,15 @@ theorem frameExts_enc (o : Option (List Ext)) (hok : ExtsOk o) :
     rw [hshape, frameExts_cons, be16_enc16 _ hok.2.2, if_pos rfl, splitExts_enc es hok.1 _ (by omega)]
     rfl
 
-theorem frame_encode (h : Hello) (hw : WellFormed h) :
-    ∃ rh, frame (encode h) = some rh ∧ rh.sessionId.length = h.sessionId.length ∧
-      rh.extensions = h.extensions.map rawExts := by
+/-- `frame` on the four consecutive parts of an encoded hello, with any (well-formed) extension block behind them -/
+theorem frame_parts (h : Hello) (hw : WellFormed h) (o : Option (List Ext)) (hok : ExtsOk o) :
+    ∃ rh, frame (headPart h ++ (encCipherBlock h ++ (encCompressionBlock h ++ encExtBlock o))) = some rh ∧
+      rh.sessionId.length = h.sessionId.length ∧ rh.extensions = o.map rawExts := by
   have hr := hw.random
   have hs := hw.sessionId
   have hcl := encCiphers_length h.cipherSuites
   have hc := hw.ciphers
   have hhl := headPart_length h hr
-  rw [encode_split]
   have hto : (UInt8.ofNat h.sessionId.length).toNat = h.sessionId.length := by simp; omega
   have htc : (UInt8.ofNat h.compressionMethods.length).toNat = h.compressionMethods.length := by
     have := hw.compression; simp; omega
@@ -714,10 +714,39 @@ theorem frame_encode (h : Hello) (hw : WellFormed h) :
     if_neg (by rw [List.length_append]; omega), List.drop_left' hhl, encCipherBlock_shape, frameCiphers_cons,
     be16_enc16 _ (by omega), if_neg (by simp only [List.length_append]; omega), List.drop_left' rfl,
     encCompressionBlock_shape, frameCompression_cons, htc, if_neg (by simp only [List.length_append]; omega),
-    List.drop_left' rfl, frameExts_enc _ hw.exts]
+    List.drop_left' rfl, frameExts_enc _ hok]
   refine ⟨_, rfl, ?_, rfl⟩
   simp only [List.length_take, List.length_drop, List.length_append, hhl]
   omega
+
+theorem frame_encode (h : Hello) (hw : WellFormed h) :
+    ∃ rh, frame (encode h) = some rh ∧ rh.sessionId.length = h.sessionId.length ∧
+      rh.extensions = h.extensions.map rawExts := by
+  rw [encode_split]
+  exact frame_parts h hw h.extensions hw.exts
+
+/-- the message cut behind its compression methods, as its parts -/
+theorem take_cut (h : Hello) :
+    (encode h).take (cutAfterCompression h) =
+      headPart h ++ (encCipherBlock h ++ (encCompressionBlock h ++ encExtBlock none)) := by
+  rw [cut_eq, encode_split]
+  rw [take_append_ge _ _ _ (by omega), take_append_ge _ _ _ (by omega), take_append_ge _ _ _ (by omega)]
+  have hz : (headPart h).length + (encCipherBlock h).length + (encCompressionBlock h).length - (headPart h).length -
+      (encCipherBlock h).length - (encCompressionBlock h).length = 0 := by omega
+  rw [hz, List.take_zero]
+  rfl
+
+/-- … which the strict reader accepts as a hello without extensions. -/
+theorem std_cut (h : Hello) (hw : WellFormed h) :
+    stdServerName 32 ((encode h).take (cutAfterCompression h)) = some [] := by
+  rw [take_cut]
+  obtain ⟨rh, hf, hsid, hext⟩ := frame_parts h hw none trivial
+  unfold stdServerName
+  rw [hf]
+  simp only
+  unfold stdName
+  rw [if_neg (by have := hw.sessionId; omega), hext]
+  rfl
 
 theorem find_rawExts (es : List Ext) :
     (rawExts es).find? (fun e => e.1 == 0) = (es.find? (fun e => e.typ == 0)).map (fun e => (e.typ, e.body)) := by
